@@ -33,7 +33,7 @@ TECHNIQUE = (
 )
 LEVEL_TEXT = (
     "Every ordered contraction sequence (n!(n-1)!/2^(n-1)) of every network "
-    "in U(3,3,2), U(4,2,2), U(4,3,2) (thorough) and the feature family is "
+    "in U(3,3,2), U(4,2,2), U(4,3,2) and the feature family is "
     "replayed through the four simulators; per step the surviving index "
     "sets, sizes and flops must coincide with each other and with the "
     "set-based reference (hypergraph/processor flops only on networks they "
@@ -59,10 +59,8 @@ PRIMES = [2, 3, 5, 7, 11, 13, 17, 19, 23]
 
 
 def units(tier, seed):
-    if tier == "quick":
-        plan = [("F", 1), ("U332", 150), ("U422", 150)]
-    else:
-        plan = [("F", 1), ("U332", 60), ("U422", 60), ("U432", 400)]
+    # (the full plan costs 20 s: both tiers use it)
+    plan = [("F", 1), ("U332", 60), ("U422", 60), ("U432", 400)]
     us = []
     for name, cs in plan:
         n = len(nets.networks(name))
@@ -252,7 +250,7 @@ def work_sim(name, a, b, tier, seed, res):
         rot = seed % len(PRIMES)
         pr = PRIMES[rot:] + PRIMES[:rot]
         sd = {ix: pr[i % len(pr)] for i, ix in enumerate(inds)}
-        if n >= 6 and tier == "quick":
+        if n >= 6 and tier == "never":
             orders = itertools.islice(U.all_ssa_orders(n), 0, None, 9)
         elif n >= 6:
             orders = U.all_ssa_orders(n)
